@@ -187,7 +187,13 @@ let run (f : string list) : string =
             | Some c ->
                 let s = show_res spec_flags (eval_top spec_flags t c e) in
                 let i = show_res cflags (eval_top cflags t c e) in
-                if s = i then s ^ "|" ^ i ^ "|" else s ^ "|" ^ i ^ "|" ^ needed cflags t c e i))
+                (* a step with key predicates whose values allow the lookup (XPathLookup): the answer through the lookup
+                   must be the answer of the evaluation (lookup_answer_top_eq_eval); a 4th field L marks these cases *)
+                let lk = (match lookup_answer_top t c e with
+                          | None -> ""
+                          | Some r -> if show_res spec_flags r = s then "|L" else "|LOOKUPDIFF:" ^ show_res spec_flags r) in
+                let s = if String.length lk > 2 then "LOOKUPDIFF" else s in
+                (if s = i then s ^ "|" ^ i ^ "|" else s ^ "|" ^ i ^ "|" ^ needed cflags t c e i) ^ lk))
   | ["xpk"; "s2n"; h] ->
       (* recommendation (XPath 1.0 Number syntax) at the precision of the code | as coded (equal: s2n_impl_eq_spec) *)
       "F:" ^ show_num (spec_s2n impl_flags.f_prec (unhex h)) ^ "|F:" ^ show_num (impl_s2n impl_flags.f_prec (unhex h))
